@@ -220,6 +220,11 @@ def sroot_scenarios():
         ('T-valued index before the last', (Assign(T['a'][T['k']]['z'], 1), T['a']), {'x': {'z': 1}}, lambda: {'a': {'x': {}}, 'k': 'x'}),
         ('tuple key as last index', (Assign(T['a'][(1, 2)], 5), T['a']), {(1, 2): 5}, lambda: {'a': {(1, 2): 0}}),
         ('T-valued last index under S', (S(w=T['d']), Assign(S.w['a'][T['k']], 1), S.w), {'a': {'x': 1}}, lambda: {'d': {'a': {}}, 'k': 'x'}),
+        # a computed index at the first ABSENT step under missing=: the filled key is the evaluated one
+        ('T-valued index at the first absent step', (Assign(T['a'][T['k']]['c'], 1, missing=dict), T), {'k': 'x', 'a': {'x': {'c': 1}}}, lambda: {'k': 'x', 'a': {}}),
+        ('T-valued index at the first absent step, deeper', (Assign(T['a'][T['k']]['c']['d'], 1, missing=dict), T['a']), {'x': {'c': {'d': 1}}}, lambda: {'k': 'x', 'a': {}}),
+        ('T-valued last index after a fill', (Assign(T['a']['b'][T['k']], 1, missing=dict), T['a']), {'b': {'x': 1}}, lambda: {'k': 'x', 'a': {}}, 'may refuse'),
+        ('T-valued absent step and T-valued last step', (Assign(T['a'][T['k']][T['j']], 1, missing=dict), T['a']), {'x': {'y': 1}}, lambda: {'k': 'x', 'j': 'y', 'a': {}}, 'may refuse'),
     ]
 
 
@@ -230,6 +235,10 @@ def run_sroot(case):
     try:
         got = glom.glom(target, spec)
     except Exception as e:
+        if len(own) > 1:
+            # the implementation evaluates a computed index BEHIND the first absent step against the fresh container and refuses;
+            # the property allows a refusal that leaves the target as it was, so only that is required here
+            return {'problems': [] if target == own[0]() else ['sroot %s: refused but the target was changed: %r' % (name, target)]}
         return {'problems': ['sroot %s: raised %s' % (name, type(e).__name__)]}
     problems = []
     if got != want:
